@@ -485,9 +485,9 @@ def g_desc(r):
         d = {"val": g_container(r)}
     elif x < 0.66:
         d = {"val": g_inst(r)}
-    elif x < 0.76:
+    elif x < 0.74:
         d = {"val": g_dict(r)}
-    elif x < 0.80:
+    elif x < 0.82:
         d = g_dyn(r)
     elif x < 0.89:
         d = {"val": r.choice(["", "a", "ab", "abc", "héllo wörld", ["m", ES, 0], ["m", ES, 1], ["m", ES, 2],
